@@ -38,6 +38,8 @@ struct Directive {
     before_tail: String,
     loops: BTreeMap<usize, LoopSpec>,
     before_return: BTreeMap<usize, String>,
+    /// (line-prefix, text): proof text inserted before the first printed line starting with the prefix
+    before_stmt: Vec<(String, String)>,
     from_fn: BTreeMap<usize, usize>,
     expect_loops: Option<usize>,
     attrs: String,
@@ -112,6 +114,11 @@ fn parse_template(text: &str) -> Vec<(bool, String, Option<Directive>)> {
                         }
                         section = Some(format!("loop:{kw}"));
                     }
+                    "before-stmt" => {
+                        let pat = rest["before-stmt".len()..].trim().to_string();
+                        d.before_stmt.push((pat, String::new()));
+                        section = Some("stmt".to_string());
+                    }
                     "before-return" => {
                         let k: usize = args[0].parse().unwrap();
                         d.before_return.entry(k).or_default();
@@ -136,6 +143,7 @@ fn parse_template(text: &str) -> Vec<(bool, String, Option<Directive>)> {
                 "loop:body-prologue" => &mut d.loops.get_mut(&cur_loop).unwrap().body_prologue,
                 "loop:body-epilogue" => &mut d.loops.get_mut(&cur_loop).unwrap().body_epilogue,
                 "loop:after-loop" => &mut d.loops.get_mut(&cur_loop).unwrap().after,
+                "stmt" => &mut d.before_stmt.last_mut().unwrap().1,
                 s if s.starts_with("ret:") => {
                     let k: usize = s[4..].parse().unwrap();
                     d.before_return.get_mut(&k).unwrap()
@@ -189,7 +197,7 @@ fn find_item(items: &[syn::Item], sel: &[String]) -> Option<Found> {
         "fn" => {
             for it in items {
                 if let syn::Item::Fn(f) = it {
-                    if f.sig.ident == sel[1] {
+                    if f.sig.ident == sel[1] && norm::cfg_value(&f.attrs) != Some(false) {
                         return Some(Found::Fn(f.clone()));
                     }
                 }
@@ -213,7 +221,7 @@ fn find_item(items: &[syn::Item], sel: &[String]) -> Option<Found> {
                     }
                     for ii in &im.items {
                         if let syn::ImplItem::Fn(f) = ii {
-                            if f.sig.ident == name {
+                            if f.sig.ident == name && norm::cfg_value(&f.attrs) != Some(false) {
                                 return Some(Found::Method { imp: im.clone(), f: f.clone() });
                             }
                         }
@@ -356,6 +364,22 @@ fn splice(printed: &str, d: &Directive, nloops: usize, nrets: usize) -> Result<S
     if let Some(n) = d.expect_loops {
         if n != nloops {
             return Err(format!("side-car expects {n} loops, function has {nloops} (anchor lost)"));
+        }
+    }
+    for (pat, txt) in &d.before_stmt {
+        let mut done = false;
+        let mut out2: Vec<String> = Vec::new();
+        for l in out.into_iter() {
+            if !done && l.trim_start().starts_with(pat.as_str()) {
+                let ind = l.len() - l.trim_start().len();
+                out2.push(indent(txt, ind));
+                done = true;
+            }
+            out2.push(l);
+        }
+        out = out2;
+        if !done {
+            return Err(format!("side-car anchor `before-stmt {pat}` not found in the function (anchor lost)"));
         }
     }
     let mut s = out.join("\n");
@@ -538,6 +562,21 @@ fn main() {
             Found::Other(mut it) => {
                 let sp = span_lines(it.span());
                 norm::strip_item_attrs(&mut it);
+                // const/static items: elided reference lifetimes are 'static (made explicit for the verus! macro)
+                {
+                    struct St;
+                    impl VisitMut for St {
+                        fn visit_type_reference_mut(&mut self, r: &mut syn::TypeReference) {
+                            if r.lifetime.is_none() { r.lifetime = Some(syn::Lifetime::new("'static", Span::call_site())); }
+                            syn::visit_mut::visit_type_reference_mut(self, r);
+                        }
+                    }
+                    match &mut it {
+                        syn::Item::Const(c) => St.visit_type_mut(&mut c.ty),
+                        syn::Item::Static(c) => St.visit_type_mut(&mut c.ty),
+                        _ => {}
+                    }
+                }
                 // module relocation: `use super::x` -> `use <path>::x` when the unit flattens the module tree
                 for o in &d.opts {
                     if let Some(path) = o.strip_prefix("rebase_super=") {
@@ -575,6 +614,35 @@ fn main() {
                 f.attrs.clear();
                 if let Some(r) = &d.rename {
                     f.sig.ident = syn::Ident::new(r, f.sig.ident.span());
+                }
+                if imp.trait_.is_some() {
+                    // associated types of the trait impl (`type Targets = X;`) are substituted for `Self::Targets`
+                    let mut assoc: Vec<(String, syn::Type)> = vec![];
+                    for ii in &imp.items {
+                        if let syn::ImplItem::Type(t) = ii { assoc.push((t.ident.to_string(), t.ty.clone())); }
+                    }
+                    struct Sub<'a>(&'a Vec<(String, syn::Type)>);
+                    impl<'a> VisitMut for Sub<'a> {
+                        fn visit_type_mut(&mut self, t: &mut syn::Type) {
+                            if let syn::Type::Path(tp) = t {
+                                if tp.qself.is_none() && tp.path.segments.len() == 2 && tp.path.segments[0].ident == "Self" {
+                                    let nm = tp.path.segments[1].ident.to_string();
+                                    if let Some((_, ty)) = self.0.iter().find(|(n, _)| *n == nm) { *t = ty.clone(); return; }
+                                }
+                            }
+                            syn::visit_mut::visit_type_mut(self, t);
+                        }
+                        fn visit_path_mut(&mut self, p: &mut syn::Path) {
+                            // `Self::Targets { .. }` in patterns / struct expressions
+                            if p.segments.len() == 2 && p.segments[0].ident == "Self" {
+                                let nm = p.segments[1].ident.to_string();
+                                if let Some((_, syn::Type::Path(tp))) = self.0.iter().find(|(n, _)| *n == nm) { *p = tp.path.clone(); return; }
+                            }
+                            syn::visit_mut::visit_path_mut(self, p);
+                        }
+                    }
+                    let mut sub = Sub(&assoc);
+                    sub.visit_impl_item_fn_mut(&mut f);
                 }
                 if emit_canaries { canary = canary_for(&f.sig, &d.header, Some(&imp)); }
                 n.run_fn(&mut f.sig, &mut f.block, d.ret.is_some());
